@@ -22,6 +22,7 @@
 #include <xalanc/XMLSupport/XalanXMLSerializerFactory.hpp>
 #include <xalanc/XMLSupport/FormatterToHTML.hpp>
 #include <xalanc/XMLSupport/FormatterToText.hpp>
+#include <xalanc/XMLSupport/XalanUTF8Writer.hpp>
 #include <xalanc/XSLT/XSLTInputSource.hpp>
 #include <xalanc/XSLT/XSLTResultTarget.hpp>
 #include <xalanc/XSLT/XSLTEngineImpl.hpp>
@@ -316,6 +317,47 @@ static std::string doEraw(const std::vector<std::string>& w)
     return result;
 }
 
+// u8 <kind> <hex units>: the real XalanUTF8Writer on a byte stream.
+//   kind = bulk -> write(const XalanDOMChar*, size_type)            (names, disable-output-escaping text, doctype strings)
+//   kind = safe -> writeSafe(const XalanDOMChar*, size_type)
+//   kind = unit -> the run written one position at a time with write(chars, start, length) (text, CDATA, comments)
+static std::string doU8(const std::vector<std::string>& w)
+{
+    if (w.size() < 3) return "bad";
+    XalanDOMString run;
+    if (!unhex(w[2], run)) return "bad";
+    MemoryManager& mm = XalanMemMgrs::getDefaultXercesMemMgr();
+    std::ostringstream os;
+    std::string result;
+    try
+    {
+        XalanStdOutputStream stream(os, mm);
+        XalanOutputStreamPrintWriter pw(stream);
+        {
+            XalanDOMString enc("UTF-8", mm);
+            stream.setOutputEncoding(enc);
+        }
+        XalanUTF8Writer u8(pw, mm);
+        const XalanDOMString::size_type n = run.length();
+        if (w[1] == "bulk") u8.write(run.c_str(), n);
+        else if (w[1] == "safe") u8.writeSafe(run.c_str(), n);
+        else if (w[1] == "unit")
+        {
+            for (XalanDOMString::size_type i = 0; i < n; ++i)
+                i = u8.write(run.c_str(), i, n);
+        }
+        else return "bad";
+        u8.flushBuffer();
+        pw.flush();
+        stream.flush();
+        result = "ok " + hexbytes(os.str());
+    }
+    catch (const xercesc::SAXException&) { result = "ERR:sax"; }
+    catch (const XSLException&) { result = "ERR:xsl"; }
+    catch (...) { result = "ERR:other"; }
+    return result;
+}
+
 int main()
 {
     xercesc::XMLPlatformUtils::Initialize();
@@ -332,6 +374,7 @@ int main()
             else if (w[0] == "xf") r = doXf(xt, w);
             else if (w[0] == "xs") r = doXs(xt, w);
             else if (w[0] == "eraw") r = doEraw(w);
+            else if (w[0] == "u8") r = doU8(w);
             else r = "bad";
             std::cout << r << "\n";
         }
